@@ -11,6 +11,11 @@ RULES = {
     "GUARD": "k_vec is only written in sketch under `k > k_vec[i]` with k (or its clamp): registers never decrease when an item is added",
     "MERGE-b": "merge's only register effect is the element-wise max: registers never decrease when a sketch is merged in",
     "WRITERS": "k_vec is written nowhere else outside new/default/reinit",
+    "MERGE-a": C05.RULES["MERGE-a"] + " (the estimate of a merged sketch is the estimate of the union only for equal parameters)",
+    "MERGE-c": C05.RULES["MERGE-c"],
+    "LOWER": C05.RULES["LOWER"] + " (a stale bound makes sketch discard valid register updates: the estimate then undercounts)",
+    "REINIT": "SetSketcher::reinit re-establishes every live mutated field with the constructor's value (RESET analysis of C13): the "
+              "estimate of a reused sketcher is the estimate of a new one",
     "SIB": "SetSketcher::get_cardinal_stats().0 and MleJaccard::get_cardinal_estimate have the same normal form "
            "m*(1-1/b) / (a*lnb*SUM_c exp(-c*ln_1p(b-1))) (fold(0,|acc,c| acc+f(c)) == map(f).sum(); field alias _b == b)",
 }
@@ -112,6 +117,9 @@ def run(ctx, facts):
     ctx.not_decided[:] = ["bias of order 1/m and the advertised spread", "the rel_std_dev formula", "rounding of the rayon reduction order"]
     C04._setsketch(ctx, facts)
     C05.merge_rules(ctx, facts)
+    C05.lower_rules(ctx, facts)
+    from . import C13
+    C13.require_verified_reset(ctx, facts, [C13.SS], "REINIT")
     # WRITERS
     okw = ["new", "default", "reinit", "sketch", "merge"]
     n = 0
@@ -122,6 +130,9 @@ def run(ctx, facts):
         n += len(ws)
         if short(fid) in okw:
             continue
+        from .. import inline
+        if inline.absorbed(facts, fid):
+            continue     # a new private helper whose every call was inlined: its writes are judged in its callers
         for (w, _f, _i) in ws:
             ctx.violation("WRITERS", fid, "k_vec written", hirq.loc(w), "%s writes the registers: `%s`" % (fid, hirq.show(w)[:60]))
     ctx.ok("WRITERS", "SetSketcher", "k_vec written only in %s (%d write sites)" % (okw, n), "")
